@@ -120,8 +120,35 @@ pub fn case_strategy(max_banks: usize) -> impl Strategy<Value = PortCase> {
         (0u8..2, any::<u16>(), prop_oneof![Just(0u32), 1u32..90, 1000u32..4_000_000]),
         prop::collection::vec(any::<u16>(), 0..=2),
         prop::bool::weighted(0.3),
+        // staked world: every bank is SOL-tagged (borrowable) or a staked-collateral bank (collateral only)
+        (prop::bool::weighted(0.12), prop::collection::vec((1_000_000_000u64..2_000_000_000_000_000, 500u32..3000, any::<bool>()), 16)),
     )
-        .prop_map(|(banks, deps, bors, ro, stale, (probe_kind, probe_bank, wait), fracs, ro_on)| {
+        .prop_map(|(mut banks, deps, bors, ro, stale, (probe_kind, probe_bank, wait), fracs, ro_on, (staked_world, pools))| {
+            if staked_world {
+                // the group's SOL feed: the first bank's oracle, as a Pyth push feed
+                let mut feed = banks[0].oracle.clone();
+                if feed.kind != 1 {
+                    feed = OracleSpec::pyth(feed.mant, feed.expo, (feed.mant as u64) / 300);
+                }
+                for (i, b) in banks.iter_mut().enumerate() {
+                    let (supply, rate_pm, st) = pools[i % pools.len()];
+                    if i > 0 && st {
+                        b.staked = Some(StakedSpec { supply, stake: ((supply as u128 * rate_pm as u128 / 1000) as u64).saturating_add(1_000_000_000) });
+                        b.oracle = OracleSpec { kind: 3, ..feed.clone() };
+                        b.asset_tag = 2;
+                        b.isolated = false;
+                        b.token = 0;
+                        b.decimals = 9;
+                        b.aw_i = b.aw_i.min(1_000_000);
+                        b.aw_m = b.aw_m.max(b.aw_i);
+                    } else {
+                        b.asset_tag = 1;
+                        if i == 0 {
+                            b.oracle = feed.clone();
+                        }
+                    }
+                }
+            }
             let spec = WorldSpec { banks, n_users: 2, program_fees_enabled: false, ..WorldSpec::default() };
             PortCase {
                 spec,
@@ -323,6 +350,9 @@ pub fn run_case(c: &PortCase, stats: &mut CaseStats) -> Result<(), (String, Stri
         let h = health(&vm_star, &a, Req::Initial, vm_star.now());
         if h.emode_active {
             stats.features.push("emode");
+        }
+        if a.lending_account.balances.iter().any(|b| b.active != 0 && b.bank_asset_tag == 2 && fixed::types::I80F48::from(b.asset_shares) >= fixed::types::I80F48::from_num(1)) {
+            stats.features.push("staked-collateral");
         }
         if h.cap_active {
             stats.features.push("cap");
